@@ -209,7 +209,13 @@ func localRpcSetup(s *rt.Sim, tier string) func() {
 						case 0:
 							c.what = "acquire"
 							c.inv = rt.Stamp()
-							c.err = q.AcquireVolatileTip()
+							// the third acquire target of the specification (own stream)
+							if rt.Choose("op.y", 3) == 2 {
+								rt.Hit("rpc.lsq-acquire-immutable-tip")
+								c.err = q.AcquireImmutableTip()
+							} else {
+								c.err = q.AcquireVolatileTip()
+							}
 						case 1:
 							// another kind of query (the client has an era cache: the answer must
 							// still come from the request this call sent)
